@@ -34,6 +34,8 @@ func runC16(p *load.Program, r *oblig.Report) {
 	c16Framing(p, r)
 	c16NoDecoderLimits(p, r)
 	c16SnappyEncoders(p, r)
+	c16FrameLength(p, r)
+	c16OutputFromOffset(p, r)
 	c16ReadFromCounts(p, r)
 }
 
